@@ -435,26 +435,47 @@ def rule_cleanup(F, R, which=("G1", "G2", "G3", "O1")):
 
     # ---- O1 ---------------------------------------------------------------------------
     if "O1" in which:
-        R.begin("O1", "the chain head is read before any listing whose result decides a deletion (otherwise a version added in between makes the chain walk empty)")
-        done = set()
+        R.begin("O1", "a listed version object is deleted as off-chain only on positive evidence (a membership test that succeeded in a structure built from the chain head); deciding it from its *absence* from a chain computed out of a listing and a head read that are two separate requests is unsafe in either order of the two requests")
         for d in info:
-            ls = set(d["name_lists"])
-            rs = set(d["name_reads"])
+            if d["name_reads"] or not _is_version_listing_del(d, c, fl, F):
+                continue  # the age-based pass walks the chain itself
+            positive = False
             for g in d["guards"]:
-                ls |= g["lists"]
-                rs |= g["reads"]
-            for l in sorted(ls):
-                for r in sorted(rs):
-                    if (l, r) in done:
-                        continue
-                    done.add((l, r))
-                    pre = list_prefix(l)
-                    if c.dominates(r, l):
-                        R.ok("O1", "head read dominates list(%s)" % pre, where(b, l))
-                    else:
-                        R.violation("O1", subj, "list(%s)≺get_latest" % ",".join(pre),
-                                    "list(%s) at %s is not dominated by the read of the chain head at %s, yet deletions are decided by both: a version accepted between the two makes every listed version look off-chain"
-                                    % (",".join(pre), loc(c.term(l)["sp"]), loc(c.term(r)["sp"])), where(b, l))
+                if not g["via_collection"]:
+                    continue
+                t = c.term(g["s"])
+                # positive: the del is on the Some-edge of an Option from a lookup, or on the true edge of contains/contains_key
+                p_ = op_place(t["o"])
+                dd = local_def(fl, p_["l"]) if p_ else None
+                if dd and dd[0] == "discr":
+                    names = {v: n for v, n in dd[2].get("variants", [])}
+                    if set(names.values()) == {"None", "Some"} and all(names.get(l) == "Some" for l in g["labels"] if l != "otherwise") and g["labels"] and "otherwise" not in g["labels"]:
+                        positive = True
+                bo = bool_origin(fl, t["o"])
+                if bo and any(re.search(r"::(contains|contains_key)$", n) for n in call_names(bo[1])):
+                    te = switch_true_edges(c, g["s"], bo[2])
+                    if all(l in [e[2] for e in te] for l in g["labels"]):
+                        positive = True
+            ls = sorted(set(d["name_lists"]) | {l for g in d["guards"] for l in g["lists"]})
+            rs = sorted({r for g in d["guards"] for r in g["reads"]})
+            order = "unordered"
+            vl = [l for l in ls if any(p.startswith("v") for p in list_prefix(l))]
+            if vl and rs:
+                if c.dominates(vl[0], rs[0]):
+                    order = "list(v-)≺get_latest"
+                elif c.dominates(rs[0], vl[0]):
+                    order = "get_latest≺list(v-)"
+            if positive:
+                R.ok("O1", "off-chain deletion requires a positive chain-membership outcome", where(b, d["bb"]))
+            else:
+                hist = {
+                    "list(v-)≺get_latest": "a version accepted by another client between the listing and the head read is missing from the listing, the chain walk from the head finds nothing, and every listed version is deleted",
+                    "get_latest≺list(v-)": "two versions committed by other clients between the head read and the listing are listed but lie beyond the stale head; the newer one is neither on the walked chain nor a child of the stale head and is deleted although it is the live head",
+                    "unordered": "the head read and the listing are not ordered",
+                }[order]
+                R.violation("O1", subj, "absence-based-deletion:%s" % order,
+                            "version objects are deleted because they are *absent* from a chain computed from list(\"v-\") (%s) and a separate read of the head (%s): %s"
+                            % (loc(c.term(vl[0])["sp"]) if vl else "?", loc(c.term(rs[0])["sp"]) if rs else "?", hist), where(b, d["bb"]))
 
     # identify the three passes by role
     offchain = [d for d in info if d["name_lists"] and not _name_via_head_chain(d, fl, c, is_reader)]
@@ -714,3 +735,103 @@ def _start_origins(c, fl, d):
             else:
                 out.append(("other", x[1], "a computed value"))
     return out
+
+
+# ---------------------------------------------------------------------------------------
+# K6: only a committed child is served
+
+def rule_K6(F, R):
+    R.begin("K6", "get_child_version serves a candidate only on positive evidence that it is on the chain: it equals the head, or it has children of its own (a leftover of a lost race has neither)")
+    im, avb = cloud_add_version(F)
+    if im is None:
+        R.missing("K6", "object-store Server impl")
+        return
+    b = None
+    for it in im["items"]:
+        if it["name"] == "get_child_version":
+            b = F.real_body(it["path"])
+    if b is None:
+        R.missing("K6", "object-store get_child_version")
+        return
+    c = cfg_of(b)
+    fl = flow_of(b)
+    subj = b["owner_fn"]
+    names, _cas = latest_names(F, avb)
+    reader_fns, _ = readers_of(F, names)
+    rn = {_norm(x) for x in reader_fns}
+    is_reader = lambda t: any(_norm(n) in rn for n in call_names(t))
+    is_children = lambda t: any(n.endswith("get_child_versions") for n in call_names(t))
+    stop = lambda t: is_reader(t) or is_children(t)
+    sites = agg_sites(c, "GetVersionResult", "Version")
+    if not sites:
+        R.missing("K6", "GetVersionResult::Version construction in the object-store get_child_version")
+        return
+    # the Option local(s) from which the served id is taken
+    st = sites[0][2]
+    op = st["r"]["ops"][st["r"]["fields"].index("version_id")]
+    sl = fl.slice_operand(op, stop=stop)
+    opts = []
+    for l in sorted(sl.locals):
+        if not fl.local_ty(l).startswith("std::option::Option<uuid::Uuid>"):
+            continue
+        somes = []
+        for d in fl.defs.get(l, ()):
+            r = d[4] if d[0] == "assign" else None
+            for _ in range(6):
+                if r is None or r["k"] != "use":
+                    break
+                p = op_place(r["o"])
+                if p is None or p["p"]:
+                    break
+                ds = [x for x in fl.defs.get(p["l"], ()) if x[0] == "assign" and not x[3]]
+                r = ds[0][4] if len(ds) == 1 else None
+            if r is not None and r["k"] == "agg" and r.get("adt", "").endswith("option::Option") and r["variant"] == "Some":
+                somes.append((d[1], r))
+        if somes:
+            opts.append((l, somes))
+    if not opts:
+        R.missing("K6", "the candidate-selection variable (an Option<Uuid> assigned Some(candidate))")
+        return
+    n = 0
+    for (l, somes) in opts:
+        for (bb, r) in somes:
+            n += 1
+            evidence = None
+            for (s, labs) in guards_of(c, bb):
+                t = c.term(s)
+                if is_plumbing(t):
+                    continue
+                bo = bool_origin(fl, t["o"])
+                if not bo:
+                    continue
+                nm = call_names(bo[1])
+                te = switch_true_edges(c, s, bo[2])
+                on_true = all(lab in [e[2] for e in te] for lab in labs)
+                if any(re.search(r"PartialEq::(eq|ne)$", x) for x in nm):
+                    isne = any(x.endswith("::ne") for x in nm)
+                    equal_side = on_true != isne
+                    a0 = fl.slice_operand(bo[1]["args"][0], stop=stop)
+                    a1 = fl.slice_operand(bo[1]["args"][1], stop=stop)
+                    for x, y in ((a0, a1), (a1, a0)):
+                        head = any(r_[0] == "call" and is_reader(c.term(r_[1])) for r_ in x.roots)
+                        cand = any(r_[0] == "call" and is_children(c.term(r_[1])) for r_ in y.roots) and "parent_version_id" not in y.upvars()
+                        if head and cand and equal_side:
+                            evidence = "equals the head"
+                if any(x.endswith("::is_empty") for x in nm) and not on_true:
+                    a0 = fl.slice_operand(bo[1]["args"][0], stop=stop)
+                    if any(r_[0] == "call" and is_children(c.term(r_[1])) for r_ in a0.roots):
+                        # the listing must be of the candidate's children, not of the requested parent's
+                        ch = [c.term(r_[1]) for r_ in a0.roots if r_[0] == "call" and is_children(c.term(r_[1]))]
+                        argsl = fl.slice_operand(ch[0]["args"][1], stop=stop)
+                        if "parent_version_id" not in argsl.upvars():
+                            evidence = "has children"
+            if evidence:
+                R.ok("K6", "candidate accepted because it %s" % evidence, where(b, bb))
+            else:
+                R.violation("K6", subj, "candidate-served-without-evidence", "a candidate child is selected at %s without having been found equal to the head or to have children: a version object left by a writer that lost (or has not finished) the race can be served as a version" % loc(_bbsp2(b, bb)), where(b, bb))
+    R.floor("K6", "candidate selections examined", n, 2)
+
+
+def _bbsp2(b, bb):
+    t = b["blocks"][bb]["t"]
+    return t["sp"] if t else b["sp"]
